@@ -34,7 +34,10 @@ def recipes(tier: str, seed: int) -> List[Dict[str, Any]]:
         if quick:
             if spec.ns == 'hex':
                 widths = (widths[(k + seed) % 2],)
-            n_values = [rng.choice(n_values)] if len(n_values) > 1 else n_values
+            if len(n_values) > 1:
+                # one odd and one even length (hexes travel in pairs through the byte macros: the last one of an odd length is alone)
+                odd, even = [n for n in n_values if n % 2], [n for n in n_values if n % 2 == 0]
+                n_values = ([rng.choice(odd)] if odd else []) + ([rng.choice(even)] if even else [])
         for w in widths:
             for n in n_values:
                 cost = (1.6 if w == 64 else 1.2) + (0.4 * n if n else 0)
